@@ -33,7 +33,7 @@ Spec == Init /\ [][Next]_g
 A == INSTANCE Analyze WITH Rules <- g
 NodeOf(b) == [op |-> "expr", x |-> b, kids |-> <<>>, p |-> <<>>, ak |-> 0, vid |-> 0, en |-> 1, lim |-> 0, sw |-> 0]
 D(w) == INSTANCE PegDen WITH Nodes <- [i \in DOMAIN g |-> NodeOf(g[i])], W <- w
-Ctx(w) == [A |-> 1, lim |-> Len(w), fam |-> 0, vis |-> 1, eol |-> 3, ib |-> 0, il |-> 1, ic |-> 1, dep |-> 0]
+Ctx(w) == [A |-> 1, lim |-> Len(w), fam |-> 0, vis |-> 1, eol |-> 3, ib |-> 0, il |-> 1, ic |-> 1, dep |-> 0, mi |-> 0]
 
 Inputs == UNION {[1..m -> {97, 98}] : m \in 0..MaxLen}
 \* a run that re-enters an open (rule, position) repeats forever; without re-entry at most |rules| * (|w| + 1) rules are
